@@ -235,6 +235,11 @@ def check_ic(ctx: Ctx, c: Dict[str, Any]) -> None:
             for kind, f_, i_ in (("matrix", fwd_lin, inv_lin), ("flow", fwd_flow, inv_flow), ("flow+matrix", fwd_flow, inv_lin)):
                 try:
                     e = L.inverse_consistency_loss(f_, i_, grid=g, units=units, reduction="none", margin=0.3 if kind != "matrix" else 0)
+                    if kind != "matrix":  # a fractional margin removes int(margin * n) samples at both ends of EVERY axis, each by its own size
+                        want = tuple(m - 2 * int(0.3 * m) for m in reversed(n))
+                        if tuple(e.shape[-D:]) != want:
+                            ctx.violation(dict(**sig, kind=kind, what="margin_shape"), f"error map of a {tuple(reversed(n))} field with margin=0.3 has shape {tuple(e.shape[-D:])}, "
+                                          f"expected {want}", c)
                     if float(e.abs().max()) > 1e-7:
                         ctx.violation(dict(**sig, kind=kind, what="exact_inverse"), f"inverse consistency error of an exact inverse pair ({kind}) is {float(e.abs().max()):.3g} {units} units (align_corners={ac})", c)
                 except Exception as ex:
